@@ -79,12 +79,35 @@ Proof.
   apply (frozen_at_put st o ob); auto.
 Qed.
 
-Lemma Mono_freeze : forall n o, Mono (freeze n o).
+Lemma Mono_gets : forall {A} (f : state -> A), Mono (gets f).
+Proof. intros A f st t H. exact H. Qed.
+
+Definition tuple_step (kv : string * value) : M unit :=
+  match snd kv with
+  | VRef t => k <- gets (fun st => is_tuple st t) ;; if k then modify t (fun tb => with_frozen tb true) else ret tt
+  | _ => ret tt
+  end.
+
+Lemma Mono_tuple_step : forall kv, Mono (tuple_step kv).
 Proof.
-  induction n as [|n IH]; intros o; simpl; [apply Mono_raise|].
+  intros [k v]. unfold tuple_step. simpl. destruct v; try apply Mono_ret.
+  apply Mono_bind; [apply Mono_gets|]. intros [|]; [apply Mono_set_frozen|apply Mono_ret].
+Qed.
+
+Lemma Mono_freeze_tuples : forall cfg o, Mono (freeze_tuples cfg o).
+Proof.
+  intros cfg o. unfold freeze_tuples. destruct (gtuple cfg); [|apply Mono_ret].
+  apply Mono_bind; [apply Mono_gets|]. intros [[k attrs]|]; [|apply Mono_ret].
+  apply Mono_bind; [|intros; apply Mono_ret]. apply Mono_mapM. intros kv. apply (Mono_tuple_step kv).
+Qed.
+
+Lemma Mono_freeze : forall cfg n o, Mono (freeze cfg n o).
+Proof.
+  intros cfg. induction n as [|n IH]; intros o; simpl; [apply Mono_raise|].
   apply Mono_bind; [apply Mono_call_direct|]. intros c. apply Mono_bind; [apply Mono_as_list|]. intros l.
-  apply Mono_bind; [|intros; apply Mono_set_frozen].
-  apply Mono_mapM. intros it. destruct (Nat.eqb (item_oid it) o); [apply Mono_ret|apply IH].
+  apply Mono_bind.
+  { apply Mono_mapM. intros it. destruct (Nat.eqb (item_oid it) o); [apply Mono_ret|apply IH]. }
+  intros _. apply Mono_bind; [apply Mono_freeze_tuples|]. intros; apply Mono_set_frozen.
 Qed.
 
 Lemma direct_items_pm_in : forall st l k c cb, In (k, VRef c) l -> get st c = Some cb -> is_pm_kind (okind cb) = true ->
@@ -96,16 +119,85 @@ Proof.
   - destruct (direct_match st DAbstractModel v); [right|]; now apply (IH k c cb).
 Qed.
 
-Definition freeze_spec (n : nat) : Prop :=
-  forall o st, Inv st -> snd (freeze n o st) = Ok tt -> forall t, PMReach st o t -> frozen_at (fst (freeze n o st)) t.
-
-Lemma freeze_children : forall n, freeze_spec n -> forall o l s,
-  Inv s ->
-  (exists r, snd (mapM (fun it : item => if Nat.eqb (item_oid it) o then ret tt else freeze n (item_oid it)) l s) = Ok r) ->
-  forall it, In it l -> item_oid it <> o -> forall t, PMReach s (item_oid it) t ->
-  frozen_at (fst (mapM (fun it : item => if Nat.eqb (item_oid it) o then ret tt else freeze n (item_oid it)) l s)) t.
+Lemma thaw_eq_view : forall s st t, thaw s = thaw st -> view s t = view st t.
 Proof.
-  intros n Hn o. set (f := fun it : item => if Nat.eqb (item_oid it) o then ret tt else freeze n (item_oid it)).
+  intros s st t H. pose proof (thaw_eq_get s st t H) as E. unfold view.
+  destruct (get s t) as [a|], (get st t) as [b|]; try contradiction; auto. destruct E as [-> ->]. reflexivity.
+Qed.
+
+(* the TuplePrior members of t (proposed repair gtuple) *)
+Definition tuples_frozen_at (cfg : config) (st st' : state) (t : nat) : Prop :=
+  gtuple cfg = true -> forall kd attrs k u, view st t = Some (kd, attrs) -> In (k, VRef u) attrs -> is_tuple st u = true ->
+  frozen_at st' u.
+
+Lemma tuples_frozen_at_thaw : forall cfg s st st' t, thaw s = thaw st ->
+  tuples_frozen_at cfg s st' t -> tuples_frozen_at cfg st st' t.
+Proof.
+  intros cfg s st st' t H T Hg kd attrs k u V I Tu. apply (T Hg kd attrs k u); auto.
+  - now rewrite (thaw_eq_view s st t H).
+  - unfold is_tuple in *. now rewrite (thaw_eq_view s st u H).
+Qed.
+
+Lemma is_tuple_frozen_step : forall s t x tb, get s t = Some tb ->
+  is_tuple (put s t (with_frozen tb true)) x = is_tuple s x.
+Proof.
+  intros s t x tb G. unfold is_tuple, view. destruct (Nat.eq_dec t x) as [->|Hne].
+  - rewrite (get_put_eq _ _ _ _ G), G. reflexivity.
+  - now rewrite get_put_neq.
+Qed.
+
+Lemma tuple_step_keeps : forall kv s x, is_tuple (fst (tuple_step kv s)) x = is_tuple s x.
+Proof.
+  intros [k v] s x. unfold tuple_step. simpl. destruct v as [p|c|t]; auto.
+  unfold bind, gets. simpl. destruct (is_tuple s t); simpl; auto.
+  unfold modify. destruct (get s t) as [tb|] eqn:G; simpl; auto. now apply is_tuple_frozen_step.
+Qed.
+
+Lemma tuple_steps_freeze : forall attrs s k u, In (k, VRef u) attrs -> is_tuple s u = true ->
+  frozen_at (fst (mapM tuple_step attrs s)) u.
+Proof.
+  induction attrs as [|kv attrs IH]; intros s k u Hin Tu; [contradiction|].
+  simpl. unfold bind.
+  destruct (tuple_step kv s) as [s1 [y|e]] eqn:E1.
+  2:{ exfalso. destruct kv as [kk v]. unfold tuple_step in E1. simpl in E1. destruct v; try discriminate.
+      unfold bind, gets in E1. simpl in E1. destruct (is_tuple s oid); [|discriminate].
+      unfold modify in E1. destruct (get s oid); discriminate. }
+  assert (K1 : is_tuple s1 u = true).
+  { pose proof (tuple_step_keeps kv s u) as K. rewrite E1 in K. simpl in K. congruence. }
+  destruct Hin as [->|Hin].
+  - assert (F1 : frozen_at s1 u).
+    { unfold tuple_step in E1. simpl in E1. unfold bind, gets in E1. simpl in E1. rewrite Tu in E1.
+      unfold modify in E1. unfold is_tuple, view in Tu. destruct (get s u) as [tb|] eqn:G; [|discriminate].
+      injection E1 as <- _. exists (with_frozen tb true). split; [now apply (get_put_eq s u _ tb)|reflexivity]. }
+    pose proof (Mono_mapM tuple_step attrs Mono_tuple_step s1 u F1) as F2.
+    destruct (mapM tuple_step attrs s1) as [s2 [ys|e]]; simpl in *; exact F2.
+  - pose proof (IH s1 k u Hin K1) as F2.
+    destruct (mapM tuple_step attrs s1) as [s2 [ys|e]]; simpl in *; exact F2.
+Qed.
+
+Lemma freeze_tuples_freezes : forall cfg o s, tuples_frozen_at cfg s (fst (freeze_tuples cfg o s)) o.
+Proof.
+  intros cfg o s Hg kd attrs k u V I Tu. unfold freeze_tuples. rewrite Hg. unfold bind, gets. simpl. rewrite V.
+  pose proof (tuple_steps_freeze attrs s k u I Tu) as F. unfold tuple_step in F.
+  destruct (mapM _ attrs s) as [s1 [ys|e]]; simpl in *; exact F.
+Qed.
+
+Definition freeze_spec (cfg : config) (n : nat) : Prop :=
+  forall o st, Inv st -> snd (freeze cfg n o st) = Ok tt -> forall t, PMReach st o t ->
+    frozen_at (fst (freeze cfg n o st)) t /\ tuples_frozen_at cfg st (fst (freeze cfg n o st)) t.
+
+Lemma tuples_frozen_mono : forall cfg st s1 s2 t, (forall u, frozen_at s1 u -> frozen_at s2 u) ->
+  tuples_frozen_at cfg st s1 t -> tuples_frozen_at cfg st s2 t.
+Proof. intros cfg st s1 s2 t M T Hg kd attrs k u V I Tu. apply M. now apply (T Hg kd attrs k u). Qed.
+
+Lemma freeze_children : forall cfg n, freeze_spec cfg n -> forall o l s,
+  Inv s ->
+  (exists r, snd (mapM (fun it : item => if Nat.eqb (item_oid it) o then ret tt else freeze cfg n (item_oid it)) l s) = Ok r) ->
+  forall it, In it l -> item_oid it <> o -> forall t, PMReach s (item_oid it) t ->
+  let s' := fst (mapM (fun it : item => if Nat.eqb (item_oid it) o then ret tt else freeze cfg n (item_oid it)) l s) in
+  frozen_at s' t /\ tuples_frozen_at cfg s s' t.
+Proof.
+  intros cfg n Hn o. set (f := fun it : item => if Nat.eqb (item_oid it) o then ret tt else freeze cfg n (item_oid it)).
   assert (Pf : forall x, Pres (f x)).
   { intros x. unfold f. destruct (Nat.eqb (item_oid x) o); [apply Pres_ret|apply Pres_freeze]. }
   assert (Mf : forall x, Mono (f x)).
@@ -115,19 +207,20 @@ Proof.
   destruct (Pf x s HI) as (I1 & T1).
   destruct (f x s) as [s1 [y|e]] eqn:Ex; simpl in *; [|discriminate].
   destruct (mapM f l s1) as [s2 [ys|e]] eqn:Em; simpl in *; [|discriminate].
+  assert (M12 : forall u, frozen_at s1 u -> frozen_at s2 u).
+  { intros u F1. pose proof (Mono_mapM f l Mf s1 u F1) as F2. now rewrite Em in F2. }
   destruct Hin as [<-|Hin].
-  - (* the first child: frozen by its own freeze, kept by the rest *)
-    assert (F1 : frozen_at s1 t).
-    { unfold f in Ex. apply Nat.eqb_neq in Hne. rewrite Hne in Ex.
-      pose proof (Hn (item_oid x) s HI) as Hs. rewrite Ex in Hs. simpl in Hs. destruct y. apply Hs; auto. }
-    pose proof (Mono_mapM f l Mf s1 t F1) as F2. rewrite Em in F2. exact F2.
+  - unfold f in Ex. apply Nat.eqb_neq in Hne. rewrite Hne in Ex.
+    pose proof (Hn (item_oid x) s HI) as Hs. rewrite Ex in Hs. simpl in Hs. destruct y.
+    destruct (Hs eq_refl t R) as (F1 & TF1). split; [now apply M12|now apply (tuples_frozen_mono cfg s s1 s2)].
   - pose proof (IH s1 I1) as IH1. rewrite Em in IH1. simpl in IH1.
-    apply (IH1 (ex_intro _ ys eq_refl) it Hin Hne). now apply (PMReach_thaw s1 s).
+    destruct (IH1 (ex_intro _ ys eq_refl) it Hin Hne t (PMReach_thaw s1 s _ _ T1 R)) as (F2 & TF2).
+    split; auto. now apply (tuples_frozen_at_thaw cfg s1 s).
 Qed.
 
-Theorem freeze_reaches_all : forall n, freeze_spec n.
+Theorem freeze_reaches_all : forall cfg n, freeze_spec cfg n.
 Proof.
-  induction n as [|n IHn]; intros o st HI Hok t R; [simpl in Hok; discriminate|].
+  intros cfg. induction n as [|n IHn]; intros o st HI Hok t R; [simpl in Hok; discriminate|].
   simpl in *. unfold bind in *.
   (* direct children, from the cache or not, are the current ones *)
   destruct (Coh_call_direct o DAbstractModel st HI) as (I1 & S1 & T1).
@@ -137,26 +230,35 @@ Proof.
   unfold p_direct in Hok |- *. destruct (get st o) as [ob|] eqn:G; [|discriminate].
   cbn [as_list ret] in *.
   set (l := direct_items st DAbstractModel (oattrs ob)) in *.
-  set (f := fun it : item => if Nat.eqb (item_oid it) o then ret tt else freeze n (item_oid it)) in *.
+  set (f := fun it : item => if Nat.eqb (item_oid it) o then ret tt else freeze cfg n (item_oid it)) in *.
   destruct (mapM f l st1) as [st2 [ys|e]] eqn:Em; simpl in *; [|discriminate].
   assert (Tst1 : thaw st1 = thaw st) by (now apply skel_thaw).
   assert (Pf : forall x, Pres (f x)).
   { intros x. unfold f. destruct (Nat.eqb (item_oid x) o); [apply Pres_ret|apply Pres_freeze]. }
   destruct (Pres_mapM f l Pf st1 I1) as (I2 & T2). rewrite Em in I2, T2. simpl in I2, T2.
-  assert (G2 : exists ob2, get st2 o = Some ob2).
-  { pose proof (thaw_eq_get st2 st o) as E. rewrite G in E. destruct (get st2 o) as [ob2|]; [now exists ob2|].
-    exfalso. apply E. congruence. }
-  destruct G2 as (ob2 & G2).
-  assert (Claim : forall a, PMReach st a t -> a = o -> frozen_at (fst (modify o (fun ob => with_frozen ob true) st2)) t).
+  destruct (Pres_freeze_tuples cfg o st2 I2) as (I3 & T3).
+  pose proof (freeze_tuples_freezes cfg o st2) as TF3.
+  pose proof (Mono_freeze_tuples cfg o st2) as M23.
+  destruct (freeze_tuples cfg o st2) as [st3 [u3|e3]] eqn:E3; simpl in *; [|discriminate].
+  assert (T3s : thaw st3 = thaw st) by congruence.
+  assert (G3 : exists ob3, get st3 o = Some ob3).
+  { pose proof (thaw_eq_get st3 st o T3s) as E. rewrite G in E. destruct (get st3 o) as [ob3|]; [now exists ob3|contradiction]. }
+  destruct G3 as (ob3 & G3).
+  set (fin := fst (modify o (fun ob => with_frozen ob true) st3)).
+  assert (M3f : forall u, frozen_at st3 u -> frozen_at fin u) by (intros u; apply Mono_set_frozen).
+  assert (Claim : forall a, PMReach st a t -> a = o -> frozen_at fin t /\ tuples_frozen_at cfg st fin t).
   { intros a Ra. induction Ra as [a|a ab k c cb t Ga Ia Gc Kc Rc IHc]; intros ->.
-    - unfold modify. rewrite G2. simpl. exists (with_frozen ob2 true). split; [now apply (get_put_eq st2 o _ ob2)|reflexivity].
+    - split.
+      + unfold fin, modify. rewrite G3. simpl. exists (with_frozen ob3 true). split; [now apply (get_put_eq st3 o _ ob3)|reflexivity].
+      + apply (tuples_frozen_at_thaw cfg st2 st); [congruence|]. now apply (tuples_frozen_mono cfg st2 st3 fin).
     - destruct (Nat.eq_dec c o) as [->|Hne]; [now apply IHc|].
-      apply Mono_set_frozen.
       rewrite G in Ga. injection Ga as <-.
       assert (Hin : In ([k], LObj c) l) by (now apply (direct_items_pm_in st (oattrs ob) k c cb)).
-      pose proof (freeze_children n IHn o l st1 I1) as FC. unfold f in Em. rewrite Em in FC. simpl in FC.
-      apply (FC (ex_intro _ ys eq_refl) ([k], LObj c) Hin); auto.
-      now apply (PMReach_thaw st1 st). }
+      pose proof (freeze_children cfg n IHn o l st1 I1) as FC. unfold f in Em. rewrite Em in FC. simpl in FC.
+      destruct (FC (ex_intro _ ys eq_refl) ([k], LObj c) Hin Hne t (PMReach_thaw st1 st _ _ Tst1 Rc)) as (F2 & TF2).
+      split; [apply M3f; now apply M23|].
+      apply (tuples_frozen_at_thaw cfg st1 st); auto.
+      apply (tuples_frozen_mono cfg st1 st2 fin); auto; intros u Fu; apply M3f; now apply M23. }
   apply (Claim o R eq_refl).
 Qed.
 
@@ -168,10 +270,12 @@ Theorem setattr_model_effect : forall cfg st o ob cls name v,
   (forall t, t <> o -> comp_at st' t = comp_at st t) /\
   snd (step cfg (OSet o name v) st) = Ok AUnit.
 Proof.
-  intros cfg st o ob cls name v G K F Fv U. cbn [step]. unfold unit_ans, op_set, bind, gets, modify, ret.
-  rewrite G, K, F, Fv, U. rewrite G. simpl. split; [|split; auto].
-  - unfold comp_at. rewrite (get_put_eq _ _ _ _ G). simpl. now rewrite K.
-  - intros t Ht. unfold comp_at. rewrite get_put_neq by auto. reflexivity.
+  intros cfg st o ob cls name v G K F Fv U. cbn [step].
+  rewrite (lift_ok cfg _ _ st (put st o (with_attrs ob (set_attr name v (oattrs ob))))).
+  2:{ unfold op_set, bind, gets, modify. rewrite G, K, F, Fv, U. rewrite G. reflexivity. }
+  simpl. split; [|split; auto].
+  - rewrite comp_at_maybe_clear. unfold comp_at. rewrite (get_put_eq _ _ _ _ G). simpl. now rewrite K.
+  - intros t Ht. rewrite comp_at_maybe_clear. unfold comp_at. rewrite get_put_neq by auto. reflexivity.
 Qed.
 
 (* a frozen model refuses to become the component of a Model (the `label` assignment hits its guard) *)
@@ -179,7 +283,7 @@ Theorem setattr_model_frozen_value : forall cfg st o ob cls name v,
   get st o = Some ob -> okind ob = KModel cls -> ofrozen ob = false -> frozen_pm st v = true ->
   step cfg (OSet o name v) st = (st, Exn EAssertion).
 Proof.
-  intros cfg st o ob cls name v G K F Fv. cbn [step]. unfold unit_ans, op_set, bind, gets.
+  intros cfg st o ob cls name v G K F Fv. cbn [step]. apply lift_exn. unfold op_set, bind, gets.
   rewrite G, K, F, Fv. reflexivity.
 Qed.
 
@@ -190,24 +294,48 @@ Theorem append_effect : forall cfg st o ob v,
   (forall t, t <> o -> comp_at st' t = comp_at st t) /\
   snd (step cfg (OAppend o v) st) = Ok AUnit.
 Proof.
-  intros cfg st o ob v G K F. cbn [step]. unfold unit_ans, op_append, bind, gets, modify, ret.
-  rewrite G, K, F. rewrite G. simpl. split; [|split; auto].
-  - unfold comp_at. rewrite (get_put_eq _ _ _ _ G). simpl. now rewrite K.
-  - intros t Ht. unfold comp_at. rewrite get_put_neq by auto. reflexivity.
+  intros cfg st o ob v G K F. cbn [step].
+  rewrite (lift_ok cfg (fun _ => true) _ st
+             (put st o (with_nitems (with_attrs ob (set_attr (string_of_nat (onitems ob)) v (oattrs ob))) (S (onitems ob))))).
+  2:{ unfold op_append, bind, gets, modify. rewrite G, K, F. rewrite G. reflexivity. }
+  simpl. split; [|split; auto].
+  - rewrite comp_at_maybe_clear. unfold comp_at. rewrite (get_put_eq _ _ _ _ G). simpl. now rewrite K.
+  - intros t Ht. rewrite comp_at_maybe_clear. unfold comp_at. rewrite get_put_neq by auto. reflexivity.
 Qed.
 
-(* delattr is accepted whatever the frozen flag says *)
+(* code as it is (gdel = false): delattr is accepted whatever the frozen flag says;
+   with the proposed guard it is accepted exactly on objects that are not frozen models / collections *)
 Theorem delattr_effect : forall cfg st o ob name w,
   get st o = Some ob -> sassoc name (oattrs ob) = Some w ->
+  del_guarded cfg (okind ob) && ofrozen ob = false ->
   let st' := fst (step cfg (ODel o name) st) in
   comp_at st' o = Some (okind ob, del_attr name (oattrs ob), onitems ob) /\
   (forall t, t <> o -> comp_at st' t = comp_at st t) /\
   snd (step cfg (ODel o name) st) = Ok AUnit.
 Proof.
-  intros cfg st o ob name w G S. cbn [step]. unfold unit_ans, op_del, bind, gets, modify, ret.
-  rewrite G, S. rewrite G. simpl. split; [|split; auto].
-  - unfold comp_at. now rewrite (get_put_eq _ _ _ _ G).
-  - intros t Ht. unfold comp_at. rewrite get_put_neq by auto. reflexivity.
+  intros cfg st o ob name w G S Hg. cbn [step].
+  rewrite (lift_ok cfg _ _ st (put st o (with_attrs ob (del_attr name (oattrs ob))))).
+  2:{ unfold op_del, bind, gets, modify. rewrite G, Hg, S. rewrite G. reflexivity. }
+  simpl. split; [|split; auto].
+  - rewrite comp_at_maybe_clear. unfold comp_at. now rewrite (get_put_eq _ _ _ _ G).
+  - intros t Ht. rewrite comp_at_maybe_clear. unfold comp_at. rewrite get_put_neq by auto. reflexivity.
+Qed.
+
+(* proposed C13-delattr-guard *)
+Theorem frozen_rejects_delattr : forall cfg st o ob name,
+  gdel cfg = true -> get st o = Some ob -> okind ob <> KTuple -> ofrozen ob = true ->
+  step cfg (ODel o name) st = (st, Exn EAssertion).
+Proof.
+  intros cfg st o ob name Hg G K F. cbn [step]. apply lift_exn. unfold op_del, bind, gets. rewrite G, F.
+  unfold del_guarded. destruct (okind ob); try congruence; rewrite Hg; reflexivity.
+Qed.
+
+(* proposed C13-tuple-prior-frozen *)
+Theorem frozen_tuple_rejects_setattr : forall cfg st t tb name v,
+  gtuple cfg = true -> get st t = Some tb -> okind tb = KTuple -> ofrozen tb = true ->
+  step cfg (OSet t name v) st = (st, Exn EAssertion).
+Proof.
+  intros cfg st t tb name v Hg G K F. cbn [step]. apply lift_exn. unfold op_set, bind, gets. rewrite G, K, Hg, F. reflexivity.
 Qed.
 
 (* a frozen collection rejects item assignment before any id is touched *)
@@ -215,22 +343,39 @@ Theorem frozen_rejects_setitem : forall cfg st o ob key v,
   get st o = Some ob -> okind ob = KColl -> ofrozen ob = true ->
   step cfg (OSetItem o key v) st = (st, Exn EAssertion).
 Proof.
-  intros cfg st o ob key v G K F. cbn [step]. unfold unit_ans, op_setitem, bind, gets. rewrite G, K, F. reflexivity.
+  intros cfg st o ob key v G K F. cbn [step]. apply (lift_exn cfg (fun _ => true)).
+  unfold op_setitem, bind, gets. rewrite G, K, F. reflexivity.
 Qed.
 
 (* history-level form of "a frozen model rejects assignment of components": after a successful
-   freeze every Model / Collection below it rejects setattr *)
+   freeze every Model / Collection below it rejects setattr -- and, with the proposed gtuple repair,
+   so does every TuplePrior member of those *)
 Theorem frozen_rejects_at_depth : forall cfg st o t name v, Inv st ->
-  snd (freeze FUEL o st) = Ok tt -> PMReach st o t ->
+  snd (freeze cfg FUEL o st) = Ok tt -> PMReach st o t ->
   (exists tb, get st t = Some tb /\ okind tb <> KTuple) ->
   let st' := fst (step cfg (OFreeze o) st) in
   step cfg (OSet t name v) st' = (st', Exn EAssertion).
 Proof.
   intros cfg st o t name v HI Hok R (tb & Gt & Kt). cbn [step]. rewrite fst_unit_ans.
-  destruct (freeze_reaches_all FUEL o st HI Hok t R) as (tb' & G' & F').
+  destruct (freeze_reaches_all cfg FUEL o st HI Hok t R) as ((tb' & G' & F') & _).
   apply (frozen_rejects_setattr cfg _ t tb' name v G'); auto.
-  destruct (Pres_freeze FUEL o st HI) as (_ & T).
-  pose proof (thaw_eq_get (fst (freeze FUEL o st)) st t T) as E. rewrite G', Gt in E. destruct E as [E _]. congruence.
+  destruct (Pres_freeze cfg FUEL o st HI) as (_ & T).
+  pose proof (thaw_eq_get (fst (freeze cfg FUEL o st)) st t T) as E. rewrite G', Gt in E. destruct E as [E _]. congruence.
+Qed.
+
+Theorem frozen_tuples_reject_at_depth : forall cfg st o t kd attrs k u name v, Inv st -> gtuple cfg = true ->
+  snd (freeze cfg FUEL o st) = Ok tt -> PMReach st o t ->
+  view st t = Some (kd, attrs) -> In (k, VRef u) attrs -> is_tuple st u = true ->
+  let st' := fst (step cfg (OFreeze o) st) in
+  step cfg (OSet u name v) st' = (st', Exn EAssertion).
+Proof.
+  intros cfg st o t kd attrs k u name v HI Hg Hok R V I Tu. cbn [step]. rewrite fst_unit_ans.
+  destruct (freeze_reaches_all cfg FUEL o st HI Hok t R) as (_ & TF).
+  destruct (TF Hg kd attrs k u V I Tu) as (ub & Gu & Fu).
+  apply (frozen_tuple_rejects_setattr cfg _ u ub name v Hg Gu); auto.
+  destruct (Pres_freeze cfg FUEL o st HI) as (_ & T).
+  pose proof (thaw_eq_view (fst (freeze cfg FUEL o st)) st u T) as E. unfold is_tuple in Tu. rewrite <- E in Tu.
+  unfold view in Tu. rewrite Gu in Tu. destruct (okind ub); try discriminate. reflexivity.
 Qed.
 
 (* ------------------------------------------------------------------ locality of an assignment *)
@@ -249,11 +394,8 @@ Theorem setattr_is_local : forall cfg st c ob name v o k,
   pure_key (fst (step cfg (OSet c name v) st)) o k = pure_key st o k.
 Proof.
   intros cfg st c ob name v o k G K F Hn.
-  destruct (setattr_effect cfg st c ob name v G K F) as (_ & Hc & _).
-  apply pure_key_local.
-  - cbn [step]. unfold unit_ans, op_set, bind, gets, modify, ret. rewrite G, K, F. rewrite G. reflexivity.
-  - apply (agree_if_unreached _ _ o c); auto.
-    cbn [step]. unfold unit_ans, op_set, bind, gets, modify, ret. rewrite G, K, F. rewrite G. reflexivity.
+  destruct (setattr_effect cfg st c ob name v G K F) as (_ & Hc & Hp & Hi & _).
+  apply pure_key_local; auto. now apply (agree_if_unreached _ _ o c).
 Qed.
 
 (* the same statement for item assignment -- false on the pinned code, see Witness.setitem_leaks *)
@@ -293,10 +435,12 @@ Theorem setitem_effect : forall cfg st o ob key v,
   ptab st' = ptab st /\ inflight st' = inflight st /\
   snd (step cfg (OSetItem o key v) st) = Ok AUnit.
 Proof.
-  intros cfg st o ob key v Ht G K F. cbn [step]. unfold unit_ans, op_setitem, bind, gets, modify, ret.
-  rewrite G, K, F, Ht. destruct v; rewrite G; simpl; (split; [|split; [|split; [|split]]]); auto;
-    try (unfold comp_at; rewrite (get_put_eq _ _ _ _ G); simpl; now rewrite K);
-    try (intros t Hne; unfold comp_at; rewrite get_put_neq by auto; reflexivity).
+  intros cfg st o ob key v Ht G K F. cbn [step].
+  rewrite (lift_ok cfg (fun _ => true) _ st (put st o (with_attrs ob (set_attr key v (oattrs ob))))).
+  2:{ unfold op_setitem, bind, gets, modify, ret. rewrite G, K, F, Ht. destruct v; rewrite G; reflexivity. }
+  simpl. rewrite ptab_maybe_clear, inflight_maybe_clear. split; [|split; [|split; [|split]]]; auto.
+  - rewrite comp_at_maybe_clear. unfold comp_at. rewrite (get_put_eq _ _ _ _ G). simpl. now rewrite K.
+  - intros t Hne. rewrite comp_at_maybe_clear. unfold comp_at. rewrite get_put_neq by auto. reflexivity.
 Qed.
 
 Theorem setitem_is_local_now : forall cfg st c ob key v o k,
@@ -353,4 +497,122 @@ Proof.
   { induction l1 as [|a l1 IH]; intros [|b l2] H; simpl in *; try discriminate; auto.
     injection H as _ _ _ _ Hf Hr. f_equal; auto. }
   now apply E.
+Qed.
+
+(* ------------------------------------------------------------------ all proposed repairs together: the FULL statement *)
+Definition all_repaired (cfg : config) : Prop :=
+  cleanup cfg = true /\ gdel cfg = true /\ gtuple cfg = true /\ epochs cfg = true.
+
+(* an operation that raises has not touched the state *)
+Definition ExnSame {A} (c : M A) : Prop := forall st e, snd (c st) = Exn e -> fst (c st) = st.
+Definition AlwaysOk {A} (c : M A) : Prop := forall st, exists a, snd (c st) = Ok a.
+
+Lemma ExnSame_raise : forall {A} e, ExnSame (@raise A e).
+Proof. intros A e st e' H. reflexivity. Qed.
+Lemma ExnSame_ok : forall {A} (c : M A), AlwaysOk c -> ExnSame c.
+Proof. intros A c H st e E. destruct (H st) as (a & Ha). congruence. Qed.
+Lemma AlwaysOk_modify : forall o f, AlwaysOk (modify o f).
+Proof. intros o f st. unfold modify. destruct (get st o); eexists; reflexivity. Qed.
+Lemma AlwaysOk_ret : forall {A} (a : A), AlwaysOk (ret a).
+Proof. intros A a st. eexists; reflexivity. Qed.
+Lemma ExnSame_gets : forall {A B} (f : state -> A) (k : A -> M B), (forall a, ExnSame (k a)) -> ExnSame (bind (gets f) k).
+Proof. intros A B f k H st e E. unfold bind, gets in *. simpl in *. now apply (H (f st) st e). Qed.
+Lemma ExnSame_then_ok : forall {A B} (c : M A) (k : A -> M B), ExnSame c -> (forall a, AlwaysOk (k a)) -> ExnSame (bind c k).
+Proof.
+  intros A B c k Hc Hk st e E. unfold bind in *. pose proof (Hc st) as H1. destruct (c st) as [s1 [a|e1]]; simpl in *.
+  - destruct (Hk a s1) as (b & Hb). congruence.
+  - now apply (H1 e1).
+Qed.
+
+Lemma ExnSame_op_set : forall cfg o name v, ExnSame (op_set cfg o name v).
+Proof.
+  intros. unfold op_set. apply ExnSame_gets. intros [ob|]; [|apply ExnSame_raise].
+  destruct (okind ob).
+  - destruct (ofrozen ob); [apply ExnSame_raise|]. apply ExnSame_gets. intros [|]; [apply ExnSame_raise|].
+    destruct (has_us name); [|apply ExnSame_ok, AlwaysOk_modify].
+    apply ExnSame_gets. intros tl. destruct (filter _ tl); [apply ExnSame_ok, AlwaysOk_modify|].
+    destruct (smemb _ _); [apply ExnSame_ok, AlwaysOk_modify|].
+    apply ExnSame_gets. intros tf. destruct (gtuple cfg && tf); [apply ExnSame_raise|apply ExnSame_ok, AlwaysOk_modify].
+  - destruct (ofrozen ob); [apply ExnSame_raise|apply ExnSame_ok, AlwaysOk_modify].
+  - destruct (gtuple cfg && ofrozen ob); [apply ExnSame_raise|apply ExnSame_ok, AlwaysOk_modify].
+Qed.
+
+Lemma ExnSame_op_append : forall o v, ExnSame (op_append o v).
+Proof.
+  intros. unfold op_append. apply ExnSame_gets. intros [ob|]; [|apply ExnSame_raise].
+  destruct (okind ob); try apply ExnSame_raise. destruct (ofrozen ob); [apply ExnSame_raise|apply ExnSame_ok, AlwaysOk_modify].
+Qed.
+
+Lemma ExnSame_op_del : forall cfg o name, ExnSame (op_del cfg o name).
+Proof.
+  intros. unfold op_del. apply ExnSame_gets. intros [ob|]; [|apply ExnSame_raise].
+  destruct (del_guarded cfg (okind ob) && ofrozen ob); [apply ExnSame_raise|].
+  destruct (sassoc name (oattrs ob)); [apply ExnSame_ok, AlwaysOk_modify|apply ExnSame_raise].
+Qed.
+
+Lemma ExnSame_op_setitem : forall cfg o key v, ExnSame (op_setitem cfg o key v).
+Proof.
+  intros. unfold op_setitem. apply ExnSame_gets. intros [ob|]; [|apply ExnSame_raise].
+  destruct (okind ob); try apply ExnSame_raise. destruct (ofrozen ob); [apply ExnSame_raise|].
+  apply ExnSame_gets. intros old. apply ExnSame_then_ok; [|intros; apply AlwaysOk_modify].
+  destruct (if itransfers cfg then old else None) as [i|]; [|destruct v; apply ExnSame_ok, AlwaysOk_ret].
+  destruct v as [p|c|c].
+  - apply ExnSame_ok. intros st. unfold set_pid. destruct (nth_error (ptab st) p) as [[j l]|]; eexists; reflexivity.
+  - apply ExnSame_ok, AlwaysOk_ret.
+  - apply ExnSame_gets. intros [|]; [apply ExnSame_raise|apply ExnSame_ok, AlwaysOk_modify].
+Qed.
+
+Lemma ExnSame_op_new : forall k a ni, ExnSame (op_new k a ni).
+Proof.
+  intros k a ni st e E. unfold op_new in *. destruct k; simpl in *; try discriminate.
+  destruct (existsb _ a); simpl in *; [reflexivity|discriminate].
+Qed.
+
+Lemma ExnSame_op_copy : forall o, ExnSame (op_copy o).
+Proof. intros o st e E. unfold op_copy in E. destruct (copy_val _ _ _). simpl in E. discriminate. Qed.
+
+Lemma bump_uncounted_exn : forall cfg b c st, ExnSame c -> (exists e, snd (c st) = Exn e) -> fst (bump cfg b c st) = st.
+Proof.
+  intros cfg b c st Hc (e & E). unfold bump. pose proof (Hc st e E) as H. destruct (c st) as [s1 [u|e1]]; simpl in *; congruence.
+Qed.
+
+(* with the wrapper repaired, deletion guarded, tuple priors frozen with their owner and the
+   modification counter, EVERY operation keeps the invariant: no guard is left *)
+Lemma step_ok_repaired : forall cfg x st, all_repaired cfg -> Inv st ->
+  Inv (fst (step cfg x st)) /\ inflight (fst (step cfg x st)) = inflight st.
+Proof.
+  intros cfg x st (Hc & Hd & Ht & He) HI.
+  assert (Hcnt : forall b c, Frm c -> ExnSame c -> (b = true \/ exists e, snd (c st) = Exn e) ->
+                 Inv (fst (bump cfg b c st)) /\ inflight (fst (bump cfg b c st)) = inflight st).
+  { intros b c Hf Hx [->|Hex].
+    - apply bump_ok_counted; auto. intros e. apply Hx.
+    - rewrite (bump_uncounted_exn cfg b c st Hx Hex). auto. }
+  destruct x; try (apply step_ok; auto; cbn [guard]; auto; fail); cbn [step]; rewrite fst_unit_ans.
+  - apply Hcnt; auto; [apply Frm_op_new|apply ExnSame_op_new].
+  - apply Hcnt; [apply Frm_op_set|apply ExnSame_op_set|].
+    unfold counted_target. rewrite Ht. destruct (get st o) as [ob|] eqn:G.
+    + left. apply orb_true_r.
+    + right. exists EAttribute. unfold op_set, bind, gets. simpl. now rewrite G.
+  - apply Hcnt; auto; [apply Frm_op_setitem|apply ExnSame_op_setitem].
+  - apply Hcnt; auto; [apply Frm_op_append|apply ExnSame_op_append].
+  - apply Hcnt; [apply Frm_op_del|apply ExnSame_op_del|].
+    destruct (get st o) as [ob|] eqn:G.
+    + left. unfold del_guarded. rewrite Hd, Ht. destruct (okind ob); reflexivity.
+    + right. exists EAttribute. unfold op_del, bind, gets. simpl. now rewrite G.
+  - apply Hcnt; auto; [apply Frm_op_copy|apply ExnSame_op_copy].
+Qed.
+
+Lemma run_ok_repaired : forall cfg ops st, all_repaired cfg -> Inv st -> inflight st = [] ->
+  Inv (fst (run cfg ops st)) /\ inflight (fst (run cfg ops st)) = [].
+Proof.
+  intros cfg ops. induction ops as [|x r IH]; intros st HA HI Hi; [simpl; auto|].
+  rewrite run_cons. simpl. destruct (step_ok_repaired cfg x st HA HI) as (I1 & F1). apply IH; auto. congruence.
+Qed.
+
+Theorem coherent_when_repaired : forall cfg, all_repaired cfg -> coherent_everywhere cfg.
+Proof.
+  intros cfg HA pre o q. rewrite run_app. simpl.
+  destruct (run_ok_repaired cfg pre (init cfg) HA (Inv_init cfg) eq_refl) as (I & Hi).
+  destruct (query_coherent cfg (fst (run cfg pre (init cfg))) o q I Hi) as (E & _).
+  destruct (run_query cfg o q (fst (run cfg pre (init cfg)))) as [st1 a]. simpl in *. now rewrite E.
 Qed.
